@@ -104,7 +104,12 @@ func extend(seed, upto int64) *built {
 			b.fail = pbt.Failf("dense", "record %d: StoredHashIndex(0,%d)=%d but %d hashes stored so far", i, i, got, len(b.hashes))
 			break
 		}
-		hs, err := tlog.StoredHashes(i, tree.Leaves[i], sliceReader(b.hashes))
+		dataArg := append([]byte(nil), tree.Leaves[i]...)
+		hs, err := tlog.StoredHashes(i, dataArg, sliceReader(b.hashes))
+		if string(dataArg) != string(tree.Leaves[i]) {
+			b.fail = pbt.Failf("storedhashes-writes-input", "StoredHashes(%d) changed the record data it was given", i)
+			break
+		}
 		if err != nil {
 			b.fail = pbt.Failf("storedhashes", "StoredHashes(%d): %v", i, err)
 			break
@@ -488,7 +493,12 @@ func checkRecordText(c recordText) pbt.Result {
 		r.Skip = true
 		return r
 	}
-	msg, err := tlog.FormatRecord(c.ID, []byte(c.Text))
+	textArg := []byte(c.Text)
+	msg, err := tlog.FormatRecord(c.ID, textArg)
+	if string(textArg) != c.Text {
+		r.Fail = pbt.Failf("formatrecord-writes-input", "FormatRecord changed the text it was given")
+		return r
+	}
 	if leading {
 		if err != nil {
 			return r // unasserted shape, rejected: fine
@@ -504,7 +514,12 @@ func checkRecordText(c recordText) pbt.Result {
 		r.Fail = pbt.Failf("formatrecord-form", "FormatRecord = %.80q (%d bytes), documented form %.80q (%d bytes)", msg, len(msg), want, len(want))
 		return r
 	}
-	id, text, rest, err := tlog.ParseRecord(append(append([]byte(nil), msg...), c.Rest...))
+	whole := append(append([]byte(nil), msg...), c.Rest...)
+	id, text, rest, err := tlog.ParseRecord(whole)
+	if string(whole) != string(msg)+c.Rest {
+		r.Fail = pbt.Failf("parserecord-writes-input", "ParseRecord changed the bytes it was given")
+		return r
+	}
 	if err != nil || id != c.ID || string(text) != c.Text || string(rest) != c.Rest {
 		r.Fail = pbt.Failf("record-roundtrip", "ParseRecord(FormatRecord(%d, text of %d bytes %.60q...) + rest of %d bytes) = (%d, text of %d bytes, rest of %d bytes, %v)", c.ID, len(c.Text), c.Text, len(c.Rest), id, len(text), len(rest), err)
 		return r
